@@ -572,6 +572,16 @@ func (v *valuesVisitor) objectValueSatisfiesInputValueDefinition(objectValue ast
 	for _, i := range v.operation.ObjectValues[objectValue.Ref].Refs {
 		if bytes.Equal(name, v.operation.ObjectFieldNameBytes(i)) {
 			value := v.operation.ObjectFieldValue(i)
+			if value.Kind == ast.ValueKindVariable {
+				// as for an argument: a nullable variable fits a non-null input field that has a default value
+				satisfied, operationTypeRef, _ := v.variableValueSatisfiesInputValueDefinition(value.Ref, inputValueDefinition)
+				if operationTypeRef == ast.InvalidRef {
+					v.handleUndefinedVarError(value)
+				} else if !satisfied {
+					v.handleVariableHasIncompatibleTypeError(value, definitionTypeRef)
+				}
+				return satisfied
+			}
 			return v.valueSatisfiesInputValueDefinitionType(value, definitionTypeRef)
 		}
 	}
